@@ -73,7 +73,7 @@ func Run(c *core.Ctx, replay string) (*core.Result, error) {
 		progs = []*absprog.Prog{&rc.Prog}
 		seed = rc.Seed
 	} else {
-		progs = c02.Programs(c.Seed, nProg, func(o *absprog.Opts, rng *rand.Rand) { o.NoNamedRec = true })
+		progs = c02.Programs(c.Seed, nProg, func(o *absprog.Opts, rng *rand.Rand) { o.NoNamedRec = true; o.MixedArrays = true })
 		for _, p := range progs {
 			addTable(p)
 		}
@@ -204,6 +204,10 @@ func Run(c *core.Ctx, replay string) (*core.Result, error) {
 	res.Evaluations = len(recs)
 	res.TracesVsImpl = len(recs)
 	res.Nontrivial = len(distinct)
+	// coverage guard: a generator refusing (or breaking on) most packages would silently empty the check
+	if replay == "" && skipped*3 > len(progs) {
+		return nil, core.Inconcl("%d of %d packages were left out (generator refusal or generated code that does not compile): the check no longer covers its universe", skipped, len(progs))
+	}
 	res.Rule = fmt.Sprintf("%d seeded random packages (+1 witness of the []byte finding), each with a table struct holding one column per top-level type; the real SQL output is parsed (validation functions, CHECK constraints) and, for every jsonb column, TLC evaluates the CHECK under PgSem on the documents marshalled from %d reflection-built values of the column's Go type and on up to %d single-point corruptions per class (unknown key, wrong JSON kind, unknown Kind, non-member enum value, wrong fixed-array length); distinct = distinct (column type, document)", len(progs)-1-skipped, nVals, nCorr)
 	res.Extra = map[string]any{"corruptions_by_class": byClass, "programs_left_out": skipped, "values_not_reencodable_by_the_corruptor": notReenc}
 	return res, nil
